@@ -7,6 +7,9 @@ write_summary_file_vue, the whole id allocation table observed on adversarial me
 pipeline observed on small synthetic templates, build_category_view, export_json's summary) against the compiled Lean model.
 Oracle on the implementation alone: every format x verbosity renders; the figures parsed back from every format
 agree with the analysis; the HTML decodes (html.parser, then json) to exactly what was analysed.
+Dates: real calendar days everywhere; a calendar stream puts edge days (29 Feb, 31 Dec / 1 Jan, month ends, far years) in every
+POSITION of the data set (only / latest / earliest / all on one day / one month / across a year end / with empty months);
+months and days shown by JSON, markdown and HTML are compared with the case's own day strings.
 """
 import contextlib
 import datetime
@@ -208,6 +211,130 @@ def amount_scale(txns):
     return None
 
 
+# ------------------------------------------------------------------ dates: the calendar, by position
+# The report code touches a transaction's date in several places (month key 'YYYY-MM', day 'MM/DD', number of months, the
+# monthly table, per-merchant months, views by month / year, "data through").  Which DAY matters is decided by the position of
+# the transaction in the data set - the latest, the earliest, the only one - so edge days are generated by position.
+# Own calendar arithmetic (no datetime): what the outputs must say is computed from these integers.
+
+CAL_YEARS = [1900, 1970, 1999, 2000, 2023, 2024, 2025, 2028, 2038, 2096, 2100, 2400]
+CAL_SHAPES = ['single', 'latest', 'earliest', 'one-day', 'one-month', 'year-boundary', 'gap', 'month-ends']
+
+
+def is_leap(y):
+    return y % 4 == 0 and (y % 100 != 0 or y % 400 == 0)
+
+
+def days_in(y, m):
+    return (31, 29 if is_leap(y) else 28, 31, 30, 31, 30, 31, 31, 30, 31, 30, 31)[m - 1]
+
+
+def add_months(y, m, k):
+    n = y * 12 + (m - 1) + k
+    return n // 12, n % 12 + 1
+
+
+def iso(d):
+    return '%04d-%02d-%02d' % d
+
+
+def edge_days():
+    """29 Feb of every leap year, 28 Feb, 1 Mar, 31 Dec, 1 Jan, 31 Jan, 30 Apr - in years near and far, leap, non-leap, century"""
+    out = []
+    for y in CAL_YEARS:
+        out += [(y, 2, 29)] if is_leap(y) else []
+        out += [(y, 2, 28), (y, 3, 1), (y, 12, 31), (y, 1, 1), (y, 1, 31), (y, 4, 30)]
+    return out
+
+
+def primary_edge(e):
+    return (e[1], e[2]) == (2, 29) or (e[0] in (1999, 2024, 2025) and (e[1], e[2]) in ((12, 31), (1, 1)))
+
+
+def random_day(r):
+    """any real calendar day (days 29-31 included), mostly 2024 / 2025; sometimes an edge day"""
+    if r.random() < 0.15:
+        return r.choice(edge_days())
+    y, m = r.choice([2024, 2025]), r.randint(1, 12)
+    return (y, m, r.randint(1, days_in(y, m)))
+
+
+def cal_dates(r, e, shape):
+    """the days of a data set of the given shape around the edge day e = (y, m, d)"""
+    y, m, d = e
+    if shape == 'single':
+        return [e]
+    if shape in ('latest', 'earliest'):
+        sign = -1 if shape == 'latest' else 1
+        out = [e]
+        for _ in range(r.randint(1, 5)):
+            k = r.choice([0, 0, 1, 1, 2, 11, 12, 13, 48])
+            if k == 0 and (d == 1 if sign < 0 else d == days_in(y, m)):
+                k = 1
+            y2, m2 = add_months(y, m, sign * k)
+            if k == 0:
+                d2 = r.randint(1, d - 1) if sign < 0 else r.randint(d + 1, days_in(y, m))
+            else:
+                d2 = r.choice([1, days_in(y2, m2), min(d, days_in(y2, m2)), r.randint(1, days_in(y2, m2))])
+            out.append((y2, m2, d2))
+        return out
+    if shape == 'one-day':
+        return [e] * r.randint(2, 5)
+    if shape == 'one-month':
+        return [(y, m, 1), e, (y, m, days_in(y, m))] + [(y, m, r.randint(1, days_in(y, m))) for _ in range(r.randint(0, 3))]
+    if shape == 'year-boundary':
+        return [e, (y - 1, 12, 31), (y, 1, 1), (y, 12, 31), (y + 1, 1, 1)][:r.randint(3, 5)] if (m, d) not in ((12, 31), (1, 1)) else \
+            [e, (y, 12, 30), (y + 1, 1, 1), (y + 1, 1, 2)] if m == 12 else [e, (y - 1, 12, 31), (y - 1, 12, 1), (y, 1, 2)]
+    if shape == 'gap':
+        out = [e]
+        for k in r.sample([2, 3, 11, 12, 13, 25, 48, -2, -12, -13], r.randint(1, 2)):
+            y2, m2 = add_months(y, m, k)
+            out.append((y2, m2, r.choice([min(d, days_in(y2, m2)), days_in(y2, m2), 1])))
+        return out
+    if shape == 'month-ends':
+        return [(y, k, days_in(y, k)) for k in range(1, 13)] + [e]
+    raise ValueError(shape)
+
+
+def cal_case(r, e, shape, views=None):
+    days = cal_dates(r, e, shape)
+    order = r.choice(['sorted', 'reversed', 'shuffled'])
+    days = sorted(days) if order == 'sorted' else sorted(days, reverse=True) if order == 'reversed' else r.sample(days, len(days))
+    merchants = r.sample(WORDS, r.randint(1, 3))
+    txns = []
+    for dd in days:
+        t = gen_txn(r, merchants, False, False, r.choice(['mixed', 'mixed', 'pos', 'neg', 'fine']), False)
+        t['date'] = iso(dd)
+        txns.append(t)
+    views = (r.random() < 0.5) if views is None else views
+    return {'txns': txns, 'views': VIEWS if views else None, 'currency': r.choice(CURRENCIES), 'sources': ['Amex'],
+            'year': r.choice([e[0], e[0], 2025]), 'calendar': {'edge': iso(e), 'shape': shape, 'order': order}}
+
+
+def cal_cases(r, quick):
+    """quick: every shape for the primary edge days (every 29 Feb; 31 Dec / 1 Jan of 1999, 2024, 2025), two random shapes for the
+    others; thorough: every edge day x every shape x with / without views, three draws each"""
+    out = []
+    for e in edge_days():
+        if quick:
+            for shape in (CAL_SHAPES if primary_edge(e) else r.sample(CAL_SHAPES, 2)):
+                out.append(cal_case(r, e, shape))
+        else:
+            for shape in CAL_SHAPES:
+                for views in (False, True):
+                    out += [cal_case(r, e, shape, views) for _ in range(3)]
+    return out
+
+
+def own_dates(case):
+    """[(merchant, 'YYYY-MM', 'MM/DD', (y, m, d))] computed from the case's ISO day strings by string slicing alone"""
+    out = []
+    for t in case['txns']:
+        y, m, d = t['date'].split('-')
+        out.append((t['merchant'], y + '-' + m, m + '/' + d, (int(y), int(m), int(d))))
+    return out
+
+
 def gen_txn(r, merchants, adversarial, lone, amount_mode, date_fields):
     m = r.choice(merchants)
     tags = []
@@ -224,7 +351,7 @@ def gen_txn(r, merchants, adversarial, lone, amount_mode, date_fields):
     desc = adv_string(r, lone) if adversarial and r.random() < 0.8 else r.choice(WORDS) + ' ' + str(r.randint(1, 999))
     t = {'merchant': m, 'amount': gen_amount(r, amount_mode), 'tags': tags, 'description': desc, 'category': cat[0],
          'subcategory': cat[1], 'source': adv_string(r, lone, 2) if adversarial and r.random() < 0.3 else r.choice(['Amex', 'Chase']),
-         'date': '%04d-%02d-%02d' % (r.choice([2024, 2025]), r.randint(1, 12), r.randint(1, 28)),
+         'date': iso(random_day(r)),
          'location': r.choice([None, None, 'WA', adv_string(r, lone, 2) if adversarial else 'NY'])}
     if r.random() < 0.25:
         t['raw_description'] = adv_string(r, lone) if adversarial else 'RAW ' + desc
@@ -313,6 +440,14 @@ def corpus():
                                  T('Hotel Lisboa', -21.8608, desc='HOTEL LISBOA REFUND EUR 20.00', cat='Travel', sub='Lodging', date='2025-02-05'),
                                  T('Kiosk', 2.675, cat='Travel', sub='Food', date='2025-02-03'),
                                  T('Emp', -2500.005, ['income'], cat='Income', sub='Salary', date='2025-01-31')])),
+        # the calendar by position: the latest / only / earliest transaction on 29 February; a statement across a year end
+        ('leap-day-latest', mk([T('Emp', -1500, ['income'], date='2024-02-01'), T('Rent', 900, date='2024-02-02'),
+                                T('Shop', 61.25, date='2024-02-14'), T('Shop', -11.25, date='2024-02-15'), T('Books', 40, date='2024-02-29')],
+                               year=2024)),
+        ('leap-day-only-views', mk([T('Shop', 12.5, date='2000-02-29')], views=VIEWS, year=2000)),
+        ('leap-day-earliest-then-year-end', mk([T('Shop', 5, date='2024-02-29'), T('Shop', 7.5, date='2024-12-31'),
+                                                T('Cafe', 2.25, date='2025-01-01'), T('Emp', -900, ['income'], date='2025-01-31')],
+                                               views=VIEWS)),
         ('sub-cent-amounts-views', mk([T('Fuel', 183.4449, date='2025-01-03'), T('Fuel', 64.129, date='2025-02-03'), T('Fees', 0.004),
                                        T('Fees', 0.0049, date='2025-02-15'), T('Emp', -900.015, ['income'])], views=VIEWS)),
     ]
@@ -535,6 +670,7 @@ def run_case(impl, case, light=False):
         info['not_analysable'] = type(e).__name__
         return fails, info
     cf = case.get('currency', '${amount}')
+    own_months = sorted({mk for _, mk, _, _ in own_dates(case)})
     want = {k: stats[STAT_KEY[k]] for k in FIGS}
     info['want'] = want
     bm = stats['by_merchant']
@@ -585,6 +721,15 @@ def run_case(impl, case, light=False):
             if any(x is None for x in got.values()):
                 fail('markdown-figure-missing', figures=[k for k, x in got.items() if x is None], verbose=v)
             compare('markdown', got, 0.005, verbose=v)
+            mm = re.search(r'\*\*Data Period:\*\*\s*(\d+) months', md)
+            if mm and int(mm.group(1)) != stats['num_months']:
+                fail('dates-disagree:markdown', fmt='markdown', figure='number of months', observed=int(mm.group(1)),
+                     required=stats['num_months'], verbose=v)
+            if '## Monthly Breakdown' in md:
+                rows = re.findall(r'^\| (\d{4,}-\d\d) \|', md.split('## Monthly Breakdown', 1)[1].split('\n## ', 1)[0], re.M)
+                if rows and rows != own_months:      # (a table that names its months differently is not compared)
+                    fail('dates-disagree:markdown', fmt='markdown', figure='months of the monthly breakdown', observed=rows,
+                         required=own_months, verbose=v)
         except Exception as e:
             fail('markdown-raises:' + type(e).__name__, site='export_markdown', verbose=v, has_positive_category=has_pos_cat, **exc_info(e))
         try:
@@ -595,6 +740,11 @@ def run_case(impl, case, light=False):
             except Exception as e:
                 fail('json-not-json', verbose=v, **exc_info(e))
                 continue
+            full = json.loads(js)
+            if ('num_months' in summ and summ['num_months'] != stats['num_months']) or \
+                    (isinstance(full.get('by_month'), dict) and sorted(full['by_month']) != own_months):
+                fail('dates-disagree:json', fmt='json', figure='months', observed={'num_months': summ.get('num_months'),
+                     'by_month': sorted(full.get('by_month') or [])}, required=own_months, verbose=v)
             old = old_json_summary(stats)
             got = {'income': summ.get('income_total'), 'credits': summ.get('credits_total'), 'cash_flow': summ.get('net_cash_flow'),
                    'spending': summ.get('spending_total', summ.get('gross_spending')),
@@ -649,6 +799,23 @@ def run_case(impl, case, light=False):
                     mm = re.search(r'</[sS][cC][rR][iI][pP][tT][\t\n\x0c\r />]|<!--', body)
                     fail('html-data-broken:script-end', browser_rule=True, diverges_at=body[mm.start():mm.start() + 16])
                 check_data(data, stats, case, fail, want)
+                # "data through" = the day of the latest transaction, in whatever form the report shows a day: it must be what the
+                # report of that one transaction alone shows.  Checked when all transactions fall in ONE calendar year: across a
+                # year end the unchanged report takes the greatest 'MM/DD' text whatever the year (finding D12h in
+                # notes/C12_notes.md) - documented exclusion
+                days = [x for _, _, _, x in own_dates(case)]
+                if case.get('calendar') and 'dataThrough' in data and len({y for y, _, _ in days}) == 1 and len(days) > 1:
+                    one = dict(case, txns=[case['txns'][max(range(len(days)), key=lambda i: days[i])]], views=None)
+                    try:
+                        _, dumps1, d1 = impl.html(impl.analyse(one), one, embedded=True)
+                        shutil.rmtree(d1, ignore_errors=True)
+                        through1 = json.loads(dumps1[-1]).get('dataThrough')
+                    except Exception:
+                        through1 = None
+                    info['data_through_checked'] = through1 is not None
+                    if through1 is not None and data['dataThrough'] != through1:
+                        fail('dates-disagree:html', figure='dataThrough', observed=data['dataThrough'], required=through1,
+                             note='required = dataThrough of the report of the latest transaction alone')
             info['html_checked'] = info.get('html_checked', 0) + 1
             info['triggers'] = triggers
             info['html_ok'] = len(fails) == fails_before
@@ -766,6 +933,13 @@ def check_data(data, stats, case, fail, want, suffix=''):
                  required=[{k: (canon_extra(t.get(k)) if k == 'extra_fields' and t.get(k) else t.get(k)) for k in
                             ('description', 'amount', 'month', 'tags', 'source', 'extra_fields')} for t in et][:5])
             return
+        # the days, against the case itself (own string slicing, not the analysis): every transaction of the merchant shows its
+        # month 'YYYY-MM' and its day 'MM/DD'
+        od = sorted((mk, dk) for mname, mk, dk, _ in own_dates(case) if mname == m['displayName'])
+        if sorted((t.get('month'), t.get('date')) for t in gt) != od:
+            fail('dates-disagree:html' + suffix, merchant=m['displayName'], observed=sorted((t.get('month'), t.get('date')) for t in gt),
+                 required=od)
+            return
         if sorted(m.get('tags') or []) != sorted(exp.get('tags', set())):
             fail('html-transaction-mismatch' + suffix, merchant=m['displayName'], field='tags')
             return
@@ -777,6 +951,10 @@ def check_data(data, stats, case, fail, want, suffix=''):
                  analysed={'avg_when_active': exp.get('avg_when_active'), 'total/12': exp.get('monthly_value'),
                            'total/num_months': exp['total'] / nm if nm else 0})
             return
+    days = [x for _, _, _, x in own_dates(case)]
+    if days and 'numMonths' in data and data['numMonths'] != stats['num_months']:
+        fail('dates-disagree:html' + suffix, figure='numMonths', observed=data['numMonths'], required=stats['num_months'])
+        return
     # per-category sums add up to the analysed totals: every total in the view is a float sum, in SOME order and grouping, of the
     # analysed totals of the merchants below it (which were just compared bit for bit) - see sum_agrees
     count = sum(d['count'] for d in bm.values())
@@ -1211,6 +1389,57 @@ def alloc_correspondence(ctx, impl, idc, tdir):
     return {'id_alloc_tables': len(metas), 'id_alloc_names': nnames}
 
 
+def calendar_correspondence(ctx, calc):
+    """Model/Report.lean `validDay` / `isLeap` vs datetime on a grid (every (m, d) in 0..13 x 0..32 for 16 years), and
+    `monthKey` / `dayKey` / `monthsSeen` / `numMonths` vs what analyze_transactions keeps of the days of the calendar cases
+    (the 'month' and 'date' of every transaction, the keys of by_month in order of appearance, num_months)."""
+    import calendar
+    from tally import analyzer
+    drv = common.Driver()
+    years = CAL_YEARS + [1000, 1600, 2001, 9999]
+    grid = [[y, m, d] for y in years for m in range(0, 14) for d in range(0, 33)]
+    reqs = [{'op': 'report', 'fn': 'calendar', 'days': grid}]
+    metas = []
+    for c in calc:
+        try:
+            stats = analyzer.analyze_transactions([to_impl(t) for t in c['txns']])
+        except Exception:
+            continue
+        pos = {}
+        real = []
+        for t in c['txns']:
+            k = pos.get(t['merchant'], 0)
+            pos[t['merchant']] = k + 1
+            tx = stats['by_merchant'][t['merchant']]['transactions'][k]
+            real.append((tx['month'], tx['date']))
+        metas.append((c, real, list(stats['by_month']), stats['num_months']))
+        reqs.append({'op': 'report', 'fn': 'calendar', 'days': [list(x) for _, _, _, x in own_dates(c)]})
+    outs = drv.batch(reqs)
+    bad_grid = []
+    for i, ((y, m, d), v, lp) in enumerate(zip(grid, outs[0]['valid'], outs[0]['leap'])):
+        try:
+            dt = datetime.datetime(y, m, d)
+            ok, keys = True, [dt.strftime('%Y-%m'), dt.strftime('%m/%d')]
+        except ValueError:
+            ok, keys = False, None
+        mkeys = [uncps(outs[0]['month'][i]), uncps(outs[0]['day'][i])]
+        if ok != v or lp != calendar.isleap(y) or (ok and keys != mkeys):
+            bad_grid.append({'day': [y, m, d], 'datetime_accepts': ok, 'validDay': v, 'isleap': calendar.isleap(y), 'isLeap': lp,
+                             'strftime': keys, 'monthKey_dayKey': mkeys})
+    ctx.obligation('correspondence:datetime/calendar.isleap/strftime-vs-validDay/isLeap/monthKey/dayKey', 'correspondence', not bad_grid, cases=len(grid),
+                   error=json.dumps(bad_grid[0])[:800] if bad_grid else None)
+    bad = []
+    for (c, real, seen, nm), o in zip(metas, outs[1:]):
+        model = list(zip((uncps(x) for x in o['month']), (uncps(x) for x in o['day'])))
+        if model != real or [uncps(x) for x in o['months_seen']] != seen or o['num_months'] != nm or not all(o['valid']):
+            bad.append({'days': [t['date'] for t in c['txns']], 'model': model, 'implementation': real,
+                        'model_months_seen': [uncps(x) for x in o['months_seen']], 'by_month_keys': seen,
+                        'model_num_months': o['num_months'], 'num_months': nm})
+    ctx.obligation("correspondence:analyze_transactions('month','date',by_month,num_months)-vs-monthKey/dayKey/monthsSeen/numMonths",
+                   'correspondence', not bad and len(metas) > 0, cases=len(metas), error=json.dumps(bad[0], default=str)[:1500] if bad else None)
+    return {'calendar_grid_days': len(grid), 'calendar_cases': len(metas)}
+
+
 # ------------------------------------------------------------------ verdict
 
 REQUIRED = ('every format x verbosity renders without exception; income / spending / credits / transfers / cash flow parsed back from '
@@ -1316,17 +1545,44 @@ def run(ctx):
             if info.get('html_checked'):
                 nontriv.add(json.dumps(c, sort_keys=True))
         idstat['distinct_name_sets'] = len(idstat['distinct_name_sets'])
+        # ---- calendar stream: edge days by position (latest / earliest / only / all on one day / one month / across a year end /
+        # months without transactions in between / every month end), every format x verbosity
+        calc = cal_cases(r, ctx.quick)
+        calstat = {'cases': len(calc), 'by_shape': {}, 'with_views': 0, 'latest_transaction_on_29_feb': 0, 'only_day_is_29_feb': 0,
+                   'earliest_transaction_on_29_feb': 0, 'latest_on_31_dec_or_1_jan': 0, 'spanning_a_year_end': 0, 'single_transaction': 0,
+                   'months_without_transactions_in_between': 0, 'years': set(), 'data_through_checked_single_year': 0}
+        for c in calc:
+            fails, info = run_case(impl, c)
+            prop_fail.extend(fails)
+            renders += info['renders']
+            days = [x for _, _, _, x in own_dates(c)]
+            calstat['by_shape'][c['calendar']['shape']] = calstat['by_shape'].get(c['calendar']['shape'], 0) + 1
+            calstat['with_views'] += bool(c.get('views'))
+            calstat['latest_transaction_on_29_feb'] += max(days)[1:] == (2, 29)
+            calstat['earliest_transaction_on_29_feb'] += min(days)[1:] == (2, 29)
+            calstat['only_day_is_29_feb'] += set(x[1:] for x in days) == {(2, 29)}
+            calstat['latest_on_31_dec_or_1_jan'] += max(days)[1:] in ((12, 31), (1, 1))
+            calstat['spanning_a_year_end'] += len({y for y, _, _ in days}) > 1
+            calstat['single_transaction'] += len(days) == 1
+            ms = sorted({y * 12 + mo for y, mo, _ in days})
+            calstat['months_without_transactions_in_between'] += any(b - a > 1 for a, b in zip(ms, ms[1:]))
+            calstat['years'] |= {y for y, _, _ in days}
+            calstat['data_through_checked_single_year'] += bool(info.get('data_through_checked'))
+            if info.get('html_checked') and len(days) > 1:
+                nontriv.add(json.dumps(c, sort_keys=True))
+        calstat['years'] = '%d distinct, %d … %d' % (len(calstat['years']), min(calstat['years']), max(calstat['years']))
         try:
             corr = correspondence(ctx, impl, cases[:120 if ctx.quick else 3000], r)
             step = max(1, len(idc) // (120 if ctx.quick else 2500))
             corr.update(alloc_correspondence(ctx, impl, idc[::step], os.path.join(impl.tmp, 'tpl-id')))
+            corr.update(calendar_correspondence(ctx, calc[::max(1, len(calc) // 2500)]))
         except Exception as e:
             corr = {'error': repr(e)[:500]}
             ctx.obligation('correspondence:driver', 'correspondence', False, error=repr(e)[:800])
-        ctx.cov['evaluations'] = len(cases) + len(idc)
+        ctx.cov['evaluations'] = len(cases) + len(idc) + len(calc)
         ctx.cov['traces_validated_against_impl'] = sum(v for k, v in corr.items() if isinstance(v, int) and k in
                                                        ('strings', 'ids_observed', 'damaged_literals', 'script_end_compared_with_html.parser',
-                                                        'splice_cases', 'category_view_cases', 'id_alloc_tables'))
+                                                        'splice_cases', 'category_view_cases', 'id_alloc_tables', 'calendar_cases'))
         ctx.cov['distinct_nontrivial'] = len(nontriv)
         ctx.cov['rule'] = ('generated transaction lists (1–22 txns; amounts: 60 %% k/4 so that float sums are exact, 30 %% with 3–6 decimals — '
                            'per-mille and sub-cent fees 0.004 / 0.0049 / 0.005, fuel = litres × price per litre, converted currency = amount × '
@@ -1347,12 +1603,26 @@ def run(ctx):
                            'A 2, A_2, A\' 2, A_2_2, …) and near misses (_1, _02, trailing _); every ordered triple (thorough: and ordered '
                            '4-subset) of a 6–8 name part of the closure, and random families of 3–8 names in random order → all formats '
                            '(light) + HTML decoded: every merchant exactly once, transactions equal, sums conserved; every such case '
-                           'counts as non-trivial when the HTML was decoded'
+                           'counts as non-trivial when the HTML was decoded.  DATES: every transaction day is a real calendar day (29–31 '
+                           'included, 15 %% edge days); PLUS the calendar stream (%d cases, every format x verbosity): edge days - 29 Feb of '
+                           '2000 / 2024 / 2028 / 2096 / 2400, 28 Feb, 1 Mar, 31 Dec, 1 Jan, 31 Jan, 30 Apr in 12 years from 1900 to 2400 (leap, '
+                           'non-leap, century) - BY POSITION in the data set: the only transaction, the latest (%d on 29 Feb, %d on 31 Dec / 1 Jan), '
+                           'the earliest (%d on 29 Feb), all transactions on that one day, one month with its first and last day, across a '
+                           'year end (%d cases span years), months without transactions in between (%d), every month end of the year; list '
+                           'order sorted / reversed / shuffled; %d with views.  Date oracle (all streams; expected values from the ISO day '
+                           'strings by slicing): JSON by_month keys, markdown monthly breakdown rows, per-merchant (month, day) of every embedded '
+                           'transaction; dataThrough = the dataThrough of the report of the latest transaction alone, when all days fall in one '
+                           'calendar year (calendar stream); JSON num_months / '
+                           'markdown Data Period / HTML numMonths = the analysed number of months (itself tied to the model\'s count of distinct '
+                           'calendar months by the calendar correspondence)'
                            % (idstat['cases'], idstat['distinct_name_sets'], idstat['natural_id_equals_generated_id_of_another_name'],
-                              idstat['with_views']))
+                              idstat['with_views'], calstat['cases'], calstat['latest_transaction_on_29_feb'], calstat['latest_on_31_dec_or_1_jan'],
+                              calstat['earliest_transaction_on_29_feb'], calstat['spanning_a_year_end'],
+                              calstat['months_without_transactions_in_between'], calstat['with_views']))
         ctx.notes['renders'] = renders
         ctx.notes['input_classes'] = trig
         ctx.notes['id_allocation_stream'] = idstat
+        ctx.notes['calendar_stream'] = calstat
         ctx.notes['correspondence'] = corr
         for lab, c in labelled[:3]:
             ctx.sample({'witness': lab, 'txns': c['txns'][:2]})
@@ -1362,7 +1632,10 @@ def run(ctx):
         def search():
             out = []
             for i in range(1500 if ctx.quick else 6000):
-                c = gen_case(r, {'adversarial': True, 'family': i % 3 == 0})
+                if i % 4 == 3:
+                    c = cal_case(r, r.choice(edge_days()), r.choice(CAL_SHAPES))
+                else:
+                    c = gen_case(r, {'adversarial': True, 'family': i % 3 == 0})
                 fails, _ = run_case(impl, c, light=True)
                 out.extend(fails)
                 if len({f['class'] for f in out}) >= 4:
